@@ -200,6 +200,7 @@ func (f *Frame) step(ins ssa.Instruction, st State, in map[*ssa.BasicBlock][]edg
 		p := f.val(ins.Addr)
 		f.nilCheck(p, st, ins)
 		f.guardCheck(p, st, true, ins)
+		f.fieldFuncStoreCheck(ins)
 		st.Heap = f.store(p, pt.Elem(), f.val(ins.Val).T, st.Heap)
 		return st, false
 	case *ssa.MapUpdate:
